@@ -39,6 +39,36 @@ pub fn take_world() -> Option<World> {
     WORLD.with(|c| c.borrow_mut().take())
 }
 
+// ---- OS thread migration: the run's top-level future is polled in phases, each phase on a fresh
+// OS thread; a `Migrate` op ends the current phase.
+static MIGRATE: std::sync::atomic::AtomicBool = std::sync::atomic::AtomicBool::new(false);
+thread_local! {
+    static MAIN_WAKER: RefCell<Option<std::task::Waker>> = const { RefCell::new(None) };
+}
+
+pub fn set_main_waker(wk: std::task::Waker) {
+    MAIN_WAKER.with(|c| *c.borrow_mut() = Some(wk));
+}
+
+/// Called by a client task: ask the driver to end this phase.
+pub fn request_migration() {
+    MAIN_WAKER.with(|c| {
+        if let Some(wk) = c.borrow().as_ref() {
+            MIGRATE_TL.with(|m| m.set(true));
+            wk.wake_by_ref();
+        }
+    });
+    let _ = &MIGRATE;
+}
+
+thread_local! {
+    static MIGRATE_TL: std::cell::Cell<bool> = const { std::cell::Cell::new(false) };
+}
+
+pub fn take_migration_request() -> bool {
+    MIGRATE_TL.with(|m| m.replace(false))
+}
+
 /// Access to the world of the run executing on this OS thread.
 pub fn w<R>(f: impl FnOnce(&mut World) -> R) -> R {
     WORLD.with(|c| f(c.borrow_mut().as_mut().expect("no world installed on this thread")))
@@ -375,6 +405,7 @@ impl World {
                         None => (Act::Reply(bulk("-1")), Some("wrong_echo")),
                     },
                     Reply::WrongEcho => (Act::Reply(bulk(&format!("x{n}"))), Some("wrong_echo")),
+                    Reply::PaddedEcho => (Act::Reply(bulk(&format!("0{n}"))), Some("numerically_equal_echo")),
                     Reply::ConcurrentEcho => (Act::DelayLatest(20), Some("slow_reply")),
                     Reply::Pong => (Act::Reply(b"+PONG\r\n".to_vec()), Some("pong_reply")),
                     Reply::IntEcho => {
